@@ -1,0 +1,55 @@
+//go:build verif
+
+package deploy
+
+import (
+	"github.com/nspcc-dev/neo-go/pkg/rpcclient/actor"
+	"github.com/nspcc-dev/neo-go/pkg/util"
+)
+
+// This file exists only in builds with the `verif` tag. It exports pure
+// helpers of the package to the external conformance harness and changes no
+// behaviour.
+
+// VerifDivideFundsEvenly exposes divideFundsEvenly.
+func VerifDivideFundsEvenly(fullAmount uint64, n int, f func(ind int, amount uint64)) {
+	divideFundsEvenly(fullAmount, n, f)
+}
+
+// VerifTransactionModifier exposes neoFSRuntimeTransactionModifier.
+func VerifTransactionModifier(getBlockchainHeight func() uint32) actor.TransactionCheckerModifier {
+	return neoFSRuntimeTransactionModifier(getBlockchainHeight)
+}
+
+// VerifSharedTxData mirrors sharedTransactionData.
+type VerifSharedTxData struct {
+	Sender          util.Uint160
+	ValidUntilBlock uint32
+	Nonce           uint32
+}
+
+func (x VerifSharedTxData) in() sharedTransactionData {
+	return sharedTransactionData{sender: x.Sender, validUntilBlock: x.ValidUntilBlock, nonce: x.Nonce}
+}
+
+// VerifSharedTxDataLen exposes sharedTransactionDataLen.
+const VerifSharedTxDataLen = sharedTransactionDataLen
+
+// Bytes exposes sharedTransactionData.bytes.
+func (x VerifSharedTxData) Bytes() []byte { return x.in().bytes() }
+
+// EncodeToString exposes sharedTransactionData.encodeToString.
+func (x VerifSharedTxData) EncodeToString() string { return x.in().encodeToString() }
+
+// VerifDecodeSharedTxData exposes sharedTransactionData.decodeString.
+func VerifDecodeSharedTxData(s string) (VerifSharedTxData, error) {
+	var d sharedTransactionData
+	err := d.decodeString(s)
+	return VerifSharedTxData{Sender: d.sender, ValidUntilBlock: d.validUntilBlock, Nonce: d.nonce}, err
+}
+
+// UnshiftChecksum exposes sharedTransactionData.unshiftChecksum.
+func (x VerifSharedTxData) UnshiftChecksum(data []byte) []byte { return x.in().unshiftChecksum(data) }
+
+// ShiftChecksum exposes sharedTransactionData.shiftChecksum.
+func (x VerifSharedTxData) ShiftChecksum(data []byte) (bool, []byte) { return x.in().shiftChecksum(data) }
